@@ -111,6 +111,13 @@ def make_module(kind, r):
 
 KINDS = ['dwt2', 'idwt2', 'dwt1', 'idwt1', 'swt', 'dtcwt', 'idtcwt', 'scat1', 'scat2']
 
+def none_level(hs, r):
+    """a third of the inverse-DWT pyramids carry a level given as None (documented: treated as zeros) - the result must still be a
+    function of the arguments alone"""
+    if int(r.integers(3)) == 0: hs[int(r.integers(len(hs)))] = None
+    return hs
+
+
 def make_args(kind, m, r, dt, p=None):
     """argument structure for a call; inverse transforms get a pyramid produced from zeros of a random size"""
     from pytorch_wavelets import DWTForward, DTCWTForward, DWT1DForward
@@ -123,14 +130,14 @@ def make_args(kind, m, r, dt, p=None):
     if kind == 'dwt1': return rnd((int(r.integers(1, 4)), C, W))
     if kind == 'idwt1':
         yl, yh = DWT1DForward(J=2, wave=p['wave'], mode=p['mode']).double()(torch.zeros(1, C, 4 * W, dtype=torch.float64))
-        return (rnd(tuple(yl.shape)), [rnd(tuple(h.shape)) for h in yh])
+        return (rnd(tuple(yl.shape)), none_level([rnd(tuple(h.shape)) for h in yh], r))
     if kind == 'idwt2':
         import pywt
         w = p['wave']
         if isinstance(w, tuple):
             wc, wr = pywt.Wavelet(w[1]), pywt.Wavelet(w[2]); w = (wc.dec_lo, wc.dec_hi, wr.dec_lo, wr.dec_hi)
         yl, yh = DWTForward(J=2, wave=w, mode=p['mode']).double()(torch.zeros(1, C, 2 * H, 2 * W, dtype=torch.float64))
-        return (rnd(tuple(yl.shape)), [rnd(tuple(h.shape)) for h in yh])
+        return (rnd(tuple(yl.shape)), none_level([rnd(tuple(h.shape)) for h in yh], r))
     if kind == 'idtcwt':
         yl, yh = DTCWTForward(J=2).double()(torch.zeros(1, C, H, W, dtype=torch.float64))
         hs = [rnd(tuple(h.shape)) for h in yh]
